@@ -636,11 +636,18 @@ def _make_init(cls: t.Type[PaneBase], fields: t.Sequence[Field]):
     setattr(cls, 'from_dict_unchecked', from_dict_unchecked)
 
 
+def _generic_origin(cls: type) -> type:
+    """The generic class `cls` was subscripted from (through any number of subscripts: `G[T][int]`), or `cls` itself"""
+    while '__origin__' in cls.__dict__:
+        cls = cls.__dict__['__origin__']
+    return cls
+
+
 def _make_eq(cls: t.Type[PaneBase], fields: t.Sequence[Field]):
     #eq_fields = list(filter(lambda f: f.eq, fields))
     def __eq__(self: PaneBase, other: t.Any) -> bool:
         # check if classes are the same (modulo type variables)
-        if self.__class__.__dict__.get('__origin__', self.__class__) != other.__class__.__dict__.get('__origin__', other.__class__):
+        if _generic_origin(self.__class__) != _generic_origin(other.__class__):
             return False
         return all(
             getattr(self, field.name) == getattr(other, field.name)
@@ -655,7 +662,7 @@ def _make_ord(cls: t.Type[PaneBase], fields: t.Sequence[Field]):
     def _pane_ord(self: PaneBase, other: t.Any) -> t.Literal[-1, 0, 1]:
         # check if classes are the same (modulo type variables, as in __eq__: `G[int]` may be
         # a different class object each time it is evaluated, once the subclass cache has cycled)
-        if self.__class__.__dict__.get('__origin__', self.__class__) != other.__class__.__dict__.get('__origin__', other.__class__):
+        if _generic_origin(self.__class__) != _generic_origin(other.__class__):
             return NotImplemented  # type: ignore
         for f in fields:
             if not f.compare:
